@@ -60,14 +60,15 @@ pub fn single<const B: usize, const W: usize>(nd: &mut Nd) {
             // least multiple of d that is >= n: n itself, or n - r + d (multiplication-free)
             let m = x as u128 - r as u128 + y as u128;
             let fits = B >= 64 && m <= u64::MAX as u128 || B < 64 && m < (1u128 << B);
-            if r == 0 {
-                chk!(nd, "C03.checked_next_multiple_of.exact", n.checked_next_multiple_of(d) == Some(n));
-                chk!(nd, "C03.next_multiple_of.exact", n.next_multiple_of(d) == n);
-            } else if B <= 16 {
-                let got = n.checked_next_multiple_of(d).map(|v| v.as_limbs()[0]);
-                chk!(nd, "C03.checked_next_multiple_of.value", got == if fits { Some(m as u64) } else { None });
-                if fits {
-                    chk!(nd, "C03.next_multiple_of.value", n.next_multiple_of(d).as_limbs()[0] == m as u64);
+            let want = if r == 0 { Some(x) } else if fits { Some(m as u64) } else { None };
+            cov!(nd, "does-not-fit", want.is_none());
+            if W == 4 {
+                if r == 0 || B <= 16 {
+                    chk!(nd, "C03.checked_next_multiple_of", n.checked_next_multiple_of(d).map(|v| v.as_limbs()[0]) == want);
+                }
+            } else if let Some(w) = want {
+                if r == 0 || B <= 16 {
+                    chk!(nd, "C03.next_multiple_of", n.next_multiple_of(d).as_limbs()[0] == w);
                 }
             }
         }
